@@ -743,7 +743,11 @@ class TensorDiagram:
             s = slice(offset, self._node_positions[i + 1] if i + 1 < len(self._node_positions) else None)
             args.append(indices[s])
 
-        result = np.einsum(*args, result_indices[0] + result_indices[1] + result_indices[2])  # type: ignore[arg-type]
+        # sums of products of small integer types must not wrap around (the Levi-Civita tensor is stored as int8)
+        dtype = np.result_type(*(node.dtype for node in self._nodes))
+        if dtype.kind in "iu" and dtype.itemsize < np.dtype(np.int64).itemsize:
+            dtype = np.dtype(np.int64) if dtype.kind == "i" else np.dtype(np.uint64)
+        result = np.einsum(*args, result_indices[0] + result_indices[1] + result_indices[2], dtype=dtype)  # type: ignore[arg-type]
 
         n_free = len(result_indices[0])
         n_cov = len(result_indices[1])
